@@ -142,7 +142,6 @@ type Store[K comparable, V any] struct {
 	ctx               context.Context
 	cancel            context.CancelFunc
 	maintenanceTicker *time.Ticker
-	waitChan          chan bool
 }
 
 type StoreOptions[K comparable, V any] struct {
@@ -202,7 +201,6 @@ func NewStore[K comparable, V any](options *StoreOptions[K, V]) *Store[K, V] {
 		cost:            costfn,
 		secondaryCache:  options.SecondaryCache,
 		probability:     options.Probability,
-		waitChan:        make(chan bool),
 	}
 	if options.EntryPool {
 		s.entryPool = &sync.Pool{New: func() any { return &Entry[K, V]{} }}
@@ -792,21 +790,24 @@ func (s *Store[K, V]) sinkWrite(item WriteBufItem[K, V]) {
 }
 
 func (s *Store[K, V]) drainWrite() {
-	var wait bool
+	var waits []chan struct{}
 	for _, item := range s.writeBuffer {
 		if item.code == WAIT {
-			wait = true
+			waits = append(waits, item.wait)
 			continue
 		}
 		s.sinkWrite(item)
 	}
 
 	s.writeBuffer = s.writeBuffer[:0]
-	if wait {
+	if len(waits) > 0 {
 		if verifOn {
 			verifAt(VpPreWake, s, nil, nil)
 		}
-		s.waitChan <- true
+		// wake up every waiter of this batch, each on its own channel
+		for _, w := range waits {
+			close(w)
+		}
 		if verifOn {
 			verifAt(VpPostWake, s, nil, nil)
 		}
@@ -1091,11 +1092,19 @@ func (s *Store[K, V]) Wait() {
 	if verifOn {
 		verifAt(VpPreSend, s, nil, nil, int64(WAIT), 0)
 	}
-	s.writeChan <- WriteBufItem[K, V]{code: WAIT}
+	done := make(chan struct{})
+	select {
+	case s.writeChan <- WriteBufItem[K, V]{code: WAIT, wait: done}:
+	case <-s.ctx.Done():
+		return
+	}
 	if verifOn {
 		verifAt(VpWaitMid, s, nil, nil)
 	}
-	<-s.waitChan
+	select {
+	case <-done:
+	case <-s.ctx.Done():
+	}
 }
 
 func (s *Store[K, V]) Recover(version uint64, reader io.Reader) error {
